@@ -11,7 +11,6 @@ import (
 	"0chain.net/chaincore/round"
 	"github.com/0chain/common/core/util"
 	"verifharness/checks/c44kit"
-	"verifharness/vkit"
 )
 
 // C44 part (d): the chain's block and round maps (and the fields kept with them:
@@ -30,7 +29,6 @@ func (c44chainRoundFactory) CreateRoundF(n int64) round.RoundI {
 
 func TestC44_ChainMaps(t *testing.T) {
 	c44chainOnce.Do(func() { round.SetupEntity(nil) })
-	vkit.For("C44").SetRule("generated concurrent programs: 2..4 goroutines x 1..6 operations (plus 0..4 sequential set-up operations) over one shared object, each program repeated on fresh objects; objects: (a) one round.Round, (b) one block.Block, (c) miner ValidateTransactions over multi-batch blocks, (d) one chain.Chain's block/round maps; operations are the calls real miner/sharder workers and handlers make; oracle: race detector silent (GORACE halt_on_error), every program finishes (watchdog), quiescent-state invariants; non-trivial = a program with two goroutines whose operations touch a common part of the object with at least one writer; distinct by (object, set of conflicting operation pairs)")
 	const (
 		nMiners  = 4
 		nRounds  = 5
